@@ -53,6 +53,28 @@ CHECKS = {
              "masked rows, near-zero vectors, non-integral schedule spans.",
         ref="DESIGN.md §5 C18",
     ),
+    "C15": dict(
+        technique="runtime monitoring: icontract post-conditions (with OLD "
+                  "snapshots) on the real assessment function + statement-level "
+                  "reference model + conservation ledger over enumerated histories; "
+                  "in-loop event-log checker on train_td7 with rebound inner "
+                  "routines",
+        text="Bounded enumeration plus exploration: all (length, return) histories "
+             "of <=3/<=4 episodes x windows x thresholds and random long ones are "
+             "fed to the real assessment function under contracts and a reference; "
+             "real train_td7 runs on scripted environments are checked for "
+             "released == executed iterations, consecutive iteration numbers and "
+             "checkpoint copies only with the flag.",
+        ref="DESIGN.md §5 C15",
+    ),
+    "C20": dict(
+        technique="runtime monitoring: list-based reference for the recording "
+                  "loggers; floor(step/i) crossing reference for checkpoint cadence; "
+                  "every listed checkpoint restored and matched to its record",
+        text="Exploration over call histories of the real loggers and checkpointers "
+             "(Orbax saves to a scratch directory that the check removes).",
+        ref="DESIGN.md §5 C20",
+    ),
 }
 
 NOT_YET = {}
